@@ -26,7 +26,7 @@ models the *actual* form:
   a prior with a fresh id, later occurrences return the same object; an arithmetic prior is rebuilt by
   its constructor and names its operands `left_` / `right_` (one attribute `right_` when both are the
   same prior object), a modified prior keeps its stored name. Run on the REAL dictionary on every run.
-* `erase` — the skeleton `Node` of a `PN` (what the walk and the instance construction see), which
+* `pnErase` — the skeleton `Node` of a `PN` (what the walk and the instance construction see), which
   ties this file to the theorems about `walk`, `count` and `instW`.
 -/
 
@@ -355,22 +355,22 @@ def arithAttrs {α} (ln rn : String) (l r : α) : List (String × α) :=
 mutual
 /-- `sig` = constructor argument names of a class path. Assertions and fixed components hold no
 advertised parameter: they are not part of the skeleton. -/
-def erase {V} (sig : String → List String) : PN V → Node V
+def pnErase {V} (sig : String → List String) : PN V → Node V
   | .prior id _ => .prior id
   | .lit (.num v) => .const v
   | .lit _ => .opaque ""
-  | .model cp attrs _ => .model cp (sig cp) (eraseAttrs sig attrs)
+  | .model cp attrs _ => .model cp (sig cp) (pnEraseAttrs sig attrs)
   | .inst _ _ => .opaque ""
-  | .coll _ attrs _ => .coll (eraseAttrs sig attrs)
-  | .tuple attrs => .tuple (eraseAttrs sig attrs)
-  | .arith ct ln rn l r => .arith (binOpOfCtype ct) (arithAttrs ln rn (erase sig l) (erase sig r)) (erase sig l) (erase sig r)
+  | .coll _ attrs _ => .coll (pnEraseAttrs sig attrs)
+  | .tuple attrs => .tuple (pnEraseAttrs sig attrs)
+  | .arith ct ln rn l r => .arith (binOpOfCtype ct) (arithAttrs ln rn (pnErase sig l) (pnErase sig r)) (pnErase sig l) (pnErase sig r)
   | .both _ _ => .opaque ""
-  | .modif mt name x => .modif (unOpOfMtype mt) [(name, erase sig x)] (erase sig x)
-  | .array shape attrs => .array shape (eraseAttrs sig attrs)
+  | .modif mt name x => .modif (unOpOfMtype mt) [(name, pnErase sig x)] (pnErase sig x)
+  | .array shape attrs => .array shape (pnEraseAttrs sig attrs)
   | .list _ _ => .opaque ""
-def eraseAttrs {V} (sig : String → List String) : List (String × PN V) → List (String × Node V)
+def pnEraseAttrs {V} (sig : String → List String) : List (String × PN V) → List (String × Node V)
   | [] => []
-  | (k, n) :: rest => (k, erase sig n) :: eraseAttrs sig rest
+  | (k, n) :: rest => (k, pnErase sig n) :: pnEraseAttrs sig rest
 end
 
 mutual
@@ -401,8 +401,8 @@ end
 `GreaterThanLessThanEqualAssertion` is `lower <= greater`, a `CompoundAssertion` is the conjunction) -/
 def asrtOf {V} (sig : String → List String) : PN V → Asrt V
   | .arith ct _ _ l r =>
-      if ct == "GreaterThanLessThanAssertion" then .cmp true (erase sig l) (erase sig r)
-      else if ct == "GreaterThanLessThanEqualAssertion" then .cmp false (erase sig l) (erase sig r)
+      if ct == "GreaterThanLessThanAssertion" then .cmp true (pnErase sig l) (pnErase sig r)
+      else if ct == "GreaterThanLessThanEqualAssertion" then .cmp false (pnErase sig l) (pnErase sig r)
       else .lit false
   | .both x y => .and (asrtOf sig x) (asrtOf sig y)
   | _ => .lit false
